@@ -686,3 +686,157 @@ func TestReplay_ResultFieldWithNameAndGroup(t *testing.T) {
 		p.Close()
 	}
 }
+
+type rbNilI interface{ Foo() }
+type rbNilA struct{ id int }
+type rbNilOther struct{}
+type rbNilGroupIn struct {
+	In
+	Is []rbNilI `group:"g"`
+}
+type rbNilConsumer struct{}
+
+// scope.createInstance#post[no_nil_output_is_stored]: a multi-return constructor that returns a nil interface value for one of its
+// outputs. As a singleton the nil was silently not stored, so Build ran the constructor a second time for "the missing" output; as a
+// group member the nil was handed to reflect.Value.Set and the panic escaped Resolve. A nil output is rejected like a nil single
+// return value (ValidationError), before anything is stored.
+func TestReplay_NilOutputOfMultiReturnConstructor(t *testing.T) {
+	for i := 0; i < 40; i++ {
+		calls := 0
+		c := NewCollection()
+		if err := c.AddSingleton(func() (*rbNilA, rbNilI) { calls++; return &rbNilA{id: calls}, nil }); err != nil {
+			t.Fatal(err)
+		}
+		p, err := c.Build()
+		if err == nil {
+			p.Close()
+		}
+		if calls != 1 {
+			t.Errorf("REPLAY-CONFIRMED scope.createInstance#post[no_nil_output_is_stored]: Build (err=%v) ran the singleton constructor %d times", err, calls)
+			break
+		}
+	}
+	c := NewCollection()
+	if err := c.AddScoped(func() (rbNilI, *rbNilOther) { return nil, &rbNilOther{} }, Group("g")); err != nil {
+		t.Fatal(err)
+	}
+	if err := c.AddScoped(func(in rbNilGroupIn) *rbNilConsumer { return &rbNilConsumer{} }); err != nil {
+		t.Fatal(err)
+	}
+	p, err := c.Build()
+	if err != nil {
+		return
+	}
+	defer p.Close()
+	func() {
+		defer func() {
+			if r := recover(); r != nil {
+				t.Errorf("REPLAY-CONFIRMED scope.createInstance#post[no_nil_output_is_stored]: Resolve panicked instead of returning an error: %v", r)
+			}
+		}()
+		if _, err := Resolve[*rbNilConsumer](p); err == nil {
+			t.Errorf("REPLAY-CONFIRMED scope.createInstance#post[no_nil_output_is_stored]: a consumer of a group with a nil member was constructed")
+		}
+	}()
+}
+
+type rbGreeter interface{ Hello() string }
+type rbValImpl struct{ n int } // only *rbValImpl implements rbGreeter
+func (*rbValImpl) Hello() string { return "hi" }
+
+type rbGreeterIn struct {
+	In
+	G rbGreeter
+}
+type rbGreeterUser struct{ g rbGreeter }
+
+// collection.addService#assert[alias_is_implemented_by_the_registered_type]: As[I] accepted a value type T when only *T implements I. The
+// T value stored under the alias is not an I: Resolve[I] failed with a type mismatch, a plain parameter of type I made the consumer's
+// constructor "panic" inside reflect.Call, and through a parameter object the reflect panic escaped Resolve and Build.
+func TestReplay_AliasOfTypeThatDoesNotImplementIt(t *testing.T) {
+	c := NewCollection()
+	if err := c.AddSingleton(func() rbValImpl { return rbValImpl{7} }, As[rbGreeter]()); err != nil {
+		return // rejecting the registration is the correct outcome
+	}
+	if err := c.AddScoped(func(in rbGreeterIn) *rbGreeterUser { return &rbGreeterUser{in.G} }); err != nil {
+		t.Fatal(err)
+	}
+	func() {
+		defer func() {
+			if r := recover(); r != nil {
+				t.Errorf("REPLAY-CONFIRMED collection.addService#assert[alias_is_implemented_by_the_registered_type]: panic escaped: %v", r)
+			}
+		}()
+		p, err := c.Build()
+		if err != nil {
+			t.Errorf("REPLAY-CONFIRMED collection.addService#assert[alias_is_implemented_by_the_registered_type]: the alias registration was accepted, Build failed: %v", err)
+			return
+		}
+		defer p.Close()
+		if _, err := Resolve[rbGreeter](p); err != nil {
+			t.Errorf("REPLAY-CONFIRMED collection.addService#assert[alias_is_implemented_by_the_registered_type]: a service registered under the alias rbGreeter is not resolvable as rbGreeter: %v", err)
+		}
+		if _, err := Resolve[*rbGreeterUser](p); err != nil {
+			t.Errorf("REPLAY-CONFIRMED collection.addService#assert[alias_is_implemented_by_the_registered_type]: the alias cannot be injected: %v", err)
+		}
+	}()
+}
+
+type rbAsImpl struct{}
+
+func (*rbAsImpl) Hello() string { return "impl" }
+
+type rbAsOther struct{}
+type rbAsOut struct {
+	Out
+	Impl *rbAsImpl
+}
+
+// collection.addService#assert[aliases_are_not_silently_dropped]: As[I] given to a constructor with several outputs (multiple return values
+// or a result object) was accepted and ignored: I was not resolvable and the concrete type was, although a registration made with As is
+// resolvable under the alias and not under the value's own type. Rejecting the registration is the correct outcome.
+func TestReplay_AliasWithSeveralOutputs(t *testing.T) {
+	for name, ctor := range map[string]any{
+		"multi-return":  func() (*rbAsImpl, *rbAsOther) { return &rbAsImpl{}, &rbAsOther{} },
+		"result-object": func() rbAsOut { return rbAsOut{Impl: &rbAsImpl{}} },
+	} {
+		c := NewCollection()
+		if err := c.AddSingleton(ctor, As[rbGreeter]()); err != nil {
+			continue
+		}
+		p, err := c.Build()
+		if err != nil {
+			t.Fatal(err)
+		}
+		if _, err := Resolve[rbGreeter](p); err != nil {
+			t.Errorf("REPLAY-CONFIRMED collection.addService#assert[aliases_are_not_silently_dropped]: %s registered with As[rbGreeter] was accepted, but rbGreeter is not resolvable: %v", name, err)
+		}
+		p.Close()
+	}
+}
+
+type rbVarOpt struct{ v int }
+type rbVarSvc struct{ opts []*rbVarOpt }
+
+// reflection.ConstructorInvoker.invokeWithRecovery#assert[variadic_functions_are_called_with_their_slice]: a variadic constructor
+// func(opts ...*T) is analysed as depending on []*T, and the resolved slice was then passed to reflect.Value.Call as a single argument:
+// reflect panicked before the constructor ran, so a registration set in which every dependency is registered could not be built.
+func TestReplay_VariadicConstructor(t *testing.T) {
+	c := NewCollection()
+	if err := c.AddSingleton(func() []*rbVarOpt { return []*rbVarOpt{{1}, {2}} }); err != nil {
+		t.Fatal(err)
+	}
+	ran := false
+	if err := c.AddSingleton(func(opts ...*rbVarOpt) *rbVarSvc { ran = true; return &rbVarSvc{opts: opts} }); err != nil {
+		return // refusing variadic constructors at registration would be consistent too
+	}
+	p, err := c.Build()
+	if err != nil {
+		t.Errorf("REPLAY-CONFIRMED ConstructorInvoker.invokeWithRecovery#assert[variadic_functions_are_called_with_their_slice]: every dependency is registered, constructor ran=%v, Build failed: %v", ran, err)
+		return
+	}
+	defer p.Close()
+	if svc, err := Resolve[*rbVarSvc](p); err != nil || len(svc.opts) != 2 {
+		t.Errorf("REPLAY-CONFIRMED ConstructorInvoker.invokeWithRecovery#assert[variadic_functions_are_called_with_their_slice]: wrong wiring: %v %v", svc, err)
+	}
+}
